@@ -221,6 +221,10 @@ func settle(e *WEnv) {
 
 var errRequeue = errors.New("unfinished work not queued again")
 
+// lastQueuedTasks: how many tasks the last `remove` / `import` op handed to the worker (the step-wise
+// harness drains them at once); the fault sweep requires 0 after a FAILED attempt
+var lastQueuedTasks int
+
 func bootEnv(e *WEnv) error {
 	if err := e.Restart(); err != nil {
 		return err
@@ -253,7 +257,8 @@ func persistOp(e *WEnv, a []string) string {
 		}
 		e.wm.VerifEnsureTaskChan()
 		err := e.wm.RemoveWallet(id, privPass(a[1]))
-		e.wm.VerifDrainTasks() // the step-wise harness runs the task itself (removerun)
+		drained, _ := e.wm.VerifDrainTasks() // the step-wise harness runs the task itself (removerun)
+		lastQueuedTasks = len(drained)
 		return errTok(err)
 	case a[0] == "removerun" && len(a) == 2:
 		id, ok := e.wallets[a[1]]
@@ -344,7 +349,8 @@ func doImport(e *WEnv, name string) error {
 	e.wm.VerifEnsureTaskChan()
 	_, err := e.wm.ImportWalletWithMnemonic(&keystore.WalletParams{Version: keystore.KeystoreVersionLatest, Mnemonic: ii.mnemonic,
 		PrivatePassphrase: []byte(ii.pass), ExternalIndex: uint32(ii.nAddr), AddressGapLimit: e.cfg.Wallet.Settings.AddressGapLimit})
-	e.wm.VerifDrainTasks()
+	drained, _ := e.wm.VerifDrainTasks()
+	lastQueuedTasks = len(drained)
 	return err
 }
 
